@@ -16,6 +16,7 @@ import (
 
 type Clause struct {
 	Local bool
+	Internal bool
 	Name  string
 	Props []string
 	Expr  *SExpr
@@ -106,7 +107,7 @@ func newContracts() *Contracts {
 }
 
 var reHeader = regexp.MustCompile(`^func\s*(\(\s*(\w+)?\s*(\*?)\s*([\w.]+)\s*\))?\s*([\w$.]+)\s*(\((.*)\))?`)
-var reClauseName = regexp.MustCompile(`^#([\w.$@-]+)\s*(\[([^\]]*)\])?\s*(local)?\s*:\s*`)
+var reClauseName = regexp.MustCompile(`^#([\w.$@-]+)\s*(\[([^\]]*)\])?\s*(local|internal)?\s*:\s*`)
 
 var subKeywords = map[string]bool{"props": true, "requires": true, "ensures": true, "modifies": true, "loop": true, "inline": true, "trusted": true, "flag": true, "pure": true, "ghost": true, "trusts": true}
 
@@ -392,6 +393,9 @@ func parseClause(s string, l rawLine) (*Clause, error) {
 	// `local`: a postcondition about the package's own representation; proved for the body, but only assumed
 	// at call sites inside the same package (callers elsewhere see the abstract clauses only)
 	c.Local = m[4] == "local"
+	// `internal`: checked at every exit of the body and may mention the function's local variables (their
+	// values at that exit); never assumed at call sites
+	c.Internal = m[4] == "internal"
 	c.Src = strings.TrimSpace(s[len(m[0]):])
 	e, err := parseSpecExpr(c.Src)
 	if err != nil {
